@@ -80,14 +80,14 @@ type viol struct {
 // classifier from the locus of the failure; if the signature is listed as an *open* known
 // finding of this property the violation is counted as known, otherwise it is a VIOLATION.
 type Reporter struct {
-	id     string
-	mu     sync.Mutex
-	known  map[string]*Finding
-	seenK  map[string]int64
-	firstK map[string]any
-	viols  []viol
+	id       string
+	mu       sync.Mutex
+	known    map[string]*Finding
+	seenK    map[string]int64
+	firstK   map[string]any
+	viols    []viol
 	sigCount map[string]int64
-	nviol  int64
+	nviol    int64
 	// ReplayCheck, if set, is called with the replay detail before a violation is believed;
 	// it must re-execute the case twice and return the observation strings.
 	maxKeep int
